@@ -166,7 +166,9 @@ class GaussianLikelihood(Likelihood):
     def _log_likelihood_gradient(
         self, predictions: ndarray, predictions_jacobian: ndarray
     ) -> ndarray:
-        dL_dF = (self.y - predictions) * self.inv_sigma_sqr
+        # (two factors of 1/sigma rather than 1/sigma**2, which leaves the float
+        # range for sigma beyond 1e-154 .. 1e154 although the gradient does not)
+        dL_dF = ((self.y - predictions) * self.inv_sigma) * self.inv_sigma
         return dL_dF @ predictions_jacobian
 
 
